@@ -58,6 +58,63 @@ def nz_vec(rng):
             return v
 
 
+EXCITATION = {"Circle": "current", "Loop": "current", "Polyline": "current", "Line": "current", "PolylineSeg": "current",
+              "Dipole": "moment", "CustomSource": "cs_coef"}
+
+
+def reexcite(cls, params, rng):
+    """same geometry, different excitation"""
+    p = dict(params)
+    key = EXCITATION.get(cls, "polarization")
+    if key == "current":
+        p[key] = rf(rng, -3, 3) or 1.5
+    elif key == "cs_coef":
+        p[key] = [rf(rng, -2, 2) for _ in range(4)]
+    else:
+        p[key] = nz_vec(rng)
+    return p
+
+
+def inner_point(cls, params, rng):
+    """a point of the local frame well inside the body (magnets); near the origin for everything else"""
+    u = lambda a, b: rng.uniform(a, b)   # noqa: E731
+    if cls == "Cuboid":
+        return [d * u(-0.3, 0.3) for d in params["dimension"]]
+    if cls == "Cylinder":
+        d, h = params["dimension"]
+        r, a = 0.5 * d * u(0.1, 0.6), u(0, 6.28)
+        return [r * np.cos(a), r * np.sin(a), h * u(-0.3, 0.3)]
+    if cls == "CylinderSegment":
+        r1, r2, h, p1, p2 = params["dimension"]
+        r, a = r1 + (r2 - r1) * u(0.3, 0.7), np.deg2rad(p1 + (p2 - p1) * u(0.3, 0.7))
+        return [r * np.cos(a), r * np.sin(a), h * u(-0.3, 0.3)]
+    if cls == "Sphere":
+        v = np.array([u(-1, 1), u(-1, 1), u(-1, 1)])
+        return (0.5 * params["diameter"] * 0.5 * v / max(np.linalg.norm(v), 1.0)).tolist()
+    if cls == "Tetrahedron":
+        w = np.array([u(0.15, 0.35) for _ in range(4)])
+        return (np.array(params["vertices"]).T @ (w / w.sum())).tolist()
+    if cls == "TriangularMesh":
+        v = np.array(params["tm_vertices"])
+        ext = np.abs(v).max(axis=0)
+        if len(v) == 4:     # tetrahedron hull: stay close to the centroid
+            return [float(e) * u(-0.1, 0.1) for e in ext]
+        return [float(e) * u(-0.6, 0.6) for e in ext]
+    return [u(-0.05, 0.05) for _ in range(3)]
+
+
+def to_global(src, local):
+    pos, rv = src["position"], src["rotvec"]
+    if isinstance(pos[0], list):
+        pos = pos[0]
+    if rv is not None and isinstance(rv[0], list):
+        rv = rv[0]
+    loc = np.array(local, dtype=float)
+    if rv is not None:
+        loc = rot_of(rv).apply(loc)
+    return [round(float(x), 6) for x in (np.array(pos, dtype=float) + loc)]
+
+
 CUBE_V = [[x, y, z] for x in (-1, 1) for y in (-1, 1) for z in (-1, 1)]
 CUBE_F = [[0, 1, 3], [0, 3, 2], [4, 6, 7], [4, 7, 5], [0, 4, 5], [0, 5, 1],
           [2, 3, 7], [2, 7, 6], [0, 2, 6], [0, 6, 4], [1, 5, 7], [1, 7, 3]]
@@ -189,28 +246,53 @@ def same(a, b, exact, scale, rtol=1e-12):
 PIX_SHAPES = [None, [1], [2], [2, 2], [3, 1]]   # leading pixel dims; None = no pixel
 
 
-def gen_obj_case(rng, classes, field=None, max_src=3):
+def gen_obj_case(rng, classes, field=None, max_src=3, first_cls=None):
+    """1-3 sources (paths, rotations), 1-3 sensors.  With first_cls: source 0 is of that class and, in half of the cases,
+    source 1 is its TWIN (same class and geometry, other excitation, other place) -- equal-geometry instances share
+    every geometry-keyed batch step of a core, so they must be told apart by their own row.  About half of the
+    sensors sit INSIDE a source body (B, J, M are only non-trivial there)."""
     M = rng.choice([1, 1, 2, 3])
     nsrc = rng.randint(1, max_src)
+    twin = first_cls is not None and rng.random() < 0.5
+    if twin:
+        nsrc = max(nsrc, 2)
     srcs = []
-    for _ in range(nsrc):
-        cls = rng.choice(classes)
+    for i in range(nsrc):
+        cls = first_cls if (i == 0 and first_cls) else rng.choice(classes)
         m = rng.choice([1, M])
-        srcs.append({"cls": cls, "params": gen_params(cls, rng),
+        if i == 1 and twin:
+            cls, params, m = srcs[0]["cls"], reexcite(srcs[0]["cls"], srcs[0]["params"], rng), 1
+        else:
+            params = gen_params(cls, rng)
+        srcs.append({"cls": cls, "params": params,
                      "position": [rvec(rng, -0.6, 0.6) for _ in range(m)] if m > 1 else rvec(rng, -0.6, 0.6),
                      "rotvec": None if rng.random() < 0.3 else
                      ([rvec(rng, -2, 2) for _ in range(m)] if m > 1 else rvec(rng, -2, 2))})
+    if twin:   # keep the twin clear of the original
+        srcs[1]["position"] = [round(x + 2.5, 3) for x in srcs[1]["position"]]
+        if rng.random() < 0.5:      # and sometimes in front of it in the source list
+            srcs[0], srcs[1] = srcs[1], srcs[0]
     nsens = rng.randint(1, 3)
     pix_lead = rng.choice(PIX_SHAPES)
     sens = []
-    for _ in range(nsens):
+    for k in range(nsens):
         m = rng.choice([1, M])
+        inside = rng.random() < 0.5
+        amp = 0.03 if inside else 0.3
         if pix_lead is None:
             pixel = None
         else:
             cnt = int(np.prod(pix_lead))
-            pixel = np.array([rvec(rng, -0.3, 0.3) for _ in range(cnt)]).reshape(pix_lead + [3]).tolist()
-        sens.append({"position": [rvec(rng, -2, 2) for _ in range(m)] if m > 1 else rvec(rng, -2, 2),
+            pixel = np.array([rvec(rng, -amp, amp) for _ in range(cnt)]).reshape(pix_lead + [3]).tolist()
+        position = [rvec(rng, -2, 2) for _ in range(m)] if m > 1 else rvec(rng, -2, 2)
+        if inside:
+            host = srcs[1] if (twin and k == 0) else rng.choice(srcs)
+            anchor = to_global(host, inner_point(host["cls"], host["params"], rng))
+            if m > 1:
+                position[0] = anchor
+            else:
+                position = anchor
+        sens.append({"position": position,
                      "rotvec": None if rng.random() < 0.4 else
                      ([rvec(rng, -2, 2) for _ in range(m)] if m > 1 else rvec(rng, -2, 2)),
                      "pixel": pixel, "handedness": "left" if rng.random() < 0.15 else "right"})
@@ -470,6 +552,9 @@ def gen_func_case(rng, cls, field=None, n=None, modes=None):
                 inst["rotvec"] = shared["rotvec"]
             if modes["observers"] == "single":
                 inst["observer"] = shared["observer"]
+        # half of the observers sit inside the instance's own body (B, J, M are only non-trivial there)
+        if rng.random() < 0.5 and (modes["observers"] != "single" or inst is shared):
+            inst["observer"] = to_global(inst, inner_point(cls, inst["params"], rng))
         insts.append(inst)
     io = rng.choice(["auto", "auto", "inside", "outside"]) if cls in ("Tetrahedron", "TriangularMesh") else "auto"
     return {"kind": "functional", "cls": base, "field": field or rng.choice(FIELDS), "n": n, "modes": modes,
@@ -639,10 +724,13 @@ def cyl_vec_to_cart(phi, vr, vphi, vz):
     return np.stack([vr * np.cos(phi) - vphi * np.sin(phi), vr * np.sin(phi) + vphi * np.cos(phi), vz], axis=1)
 
 
-def gen_core_case(rng, cls, n=None):
+def gen_core_case(rng, cls, n=None, region=None):
+    """n instances for one core function; every parameter region of the class (CylinderSegment: section < 360 and
+    == 360, r1 == 0 and > 0) and observers outside, close by, inside the material and (rings) in the bore"""
     n = n or rng.randint(1, 4)
     insts = []
     for _ in range(n):
+        reg = None
         if cls == "CylinderAxial":
             p = gen_params("Cylinder", rng)
             p["polarization"] = [0.0, 0.0, rf(rng, 0.2, 1.0) * rng.choice([-1, 1])]
@@ -650,23 +738,36 @@ def gen_core_case(rng, cls, n=None):
             p = gen_params("Cylinder", rng)
             p["polarization"] = [rf(rng, -1, 1), rf(rng, 0.2, 1.0), 0.0]
         elif cls == "CylinderSegment":
-            p = gen_params(cls, rng)
-            while p["dimension"][4] - p["dimension"][3] >= 360:
-                p = gen_params(cls, rng)
+            reg = region or rng.choice(["segment", "segment-r1=0", "full-ring", "full-solid"])
+            r1 = 0.0 if reg in ("segment-r1=0", "full-solid") else rf(rng, 0.15, 0.6)
+            p1 = rf(rng, -170, 0)
+            p2 = round(p1 + 360, 3) if reg.startswith("full") else round(p1 + rf(rng, 20, 250), 3)
+            p = {"polarization": nz_vec(rng),
+                 "dimension": [r1, round(r1 + rf(rng, 0.2, 0.8), 3), rf(rng, 0.3, 1.5), p1, p2]}
         elif cls == "PolylineSeg":
             p = {"current": rf(rng, -3, 3) or 1.0, "segment_start": rvec(rng), "segment_end": rvec(rng)}
         else:
             p = gen_params(cls, rng)
-        # observers: clearly outside (distance 2..4 from the origin; every source fits in radius 1.75)
-        while True:
-            o = rvec(rng, -3.5, 3.5)
-            r = float(np.linalg.norm(o))
-            if 2.0 <= r <= 4.5 and abs(o[0]) > 0.05 and abs(o[1]) > 0.05 and abs(o[2]) > 0.05:
-                break
-        if cls == "Sphere" or cls == "Cuboid":
-            if rng.random() < 0.4:   # inside points too (B is what the core returns)
-                o = [round(0.2 * x * 0.3, 4) for x in rvec(rng)]
-        insts.append({"params": p, "observer": o})
+        ocl = {"CylinderAxial": "Cylinder", "CylinderDiametral": "Cylinder"}.get(cls, cls)
+        kind = rng.choice(["far", "near", "inside", "bore"])
+        if kind == "far":
+            while True:
+                o = rvec(rng, -3.5, 3.5)
+                r = float(np.linalg.norm(o))
+                if 2.0 <= r <= 4.5 and min(abs(x) for x in o) > 0.05:
+                    break
+        elif kind == "near" or ocl not in ("Cuboid", "Sphere", "Cylinder", "CylinderSegment"):
+            while True:
+                o = rvec(rng, -1.5, 1.5)
+                if min(abs(x) for x in o) > 0.02:
+                    break
+        elif kind == "bore" and ocl == "CylinderSegment" and p["dimension"][0] > 0:
+            r1, h = p["dimension"][0], p["dimension"][2]
+            rr, a = r1 * rng.uniform(0.1, 0.85), rng.uniform(0.1, 6.2)
+            o = [round(rr * np.cos(a), 5), round(rr * np.sin(a), 5), round(h * rng.uniform(-0.45, 0.45), 5)]
+        else:
+            o = [round(float(x), 5) for x in inner_point(ocl, p, rng)]
+        insts.append({"params": p, "observer": o, "region": reg, "where": kind})
     return {"kind": "core", "cls": cls, "instances": insts}
 
 
@@ -724,12 +825,26 @@ def check_core(case):
     else:
         raise KeyError(cls)
     exp = B if want == "B" else H
-    sc = max(scale_of(B), scale_of(H) * MU0) / (1.0 if want == "B" else MU0)
-    # the harness converts coordinates itself: a few ulp of the operands, amplified by nothing (observers are
-    # far from every edge) -> 1e-10 of the field scale is generous and still far below any wrong-formula effect
-    ok, w = same(np.asarray(got, dtype=float), exp, False, sc, rtol=1e-10)
-    if not ok:
-        return fail("core-differs", fn, f"magpylib.core.{fn} differs from get{want}(object): {w}")
+    got = np.asarray(got, dtype=float)
+    if got.shape != exp.shape:
+        return fail("core-differs", fn, f"magpylib.core.{fn}: shape {got.shape} vs {exp.shape}")
+    # per instance: the natural field scale (|J| resp. |J|/mu0 for magnets, the field itself otherwise); the harness
+    # converts coordinates itself, so a difference explained by a few-ulp move of the observer is accepted as well.
+    # A full-angle CylinderSegment is computed by the object interface with the Cylinder formulas (another
+    # algorithm, elliptic integrals by iteration): agreement to 1e-7 of the scale there, 1e-10 elsewhere
+    for i, inst in enumerate(insts):
+        nat = scale_of(P["polarization"][i]) if "polarization" in P else 0.0
+        sc = max(scale_of(B[i]), scale_of(H[i]) * MU0, nat) / (1.0 if want == "B" else MU0)
+        rtol = 1e-7 if str(inst.get("region", "")).startswith("full") else 1e-10
+        d = float(np.max(np.abs(got[i] - exp[i])))
+        if d <= rtol * sc:
+            continue
+        if d <= 64 * ulp_sensitivity(objs[i], inst["observer"], want):
+            continue
+        reg = f" [{inst['region']}]" if inst.get("region") else ""
+        return fail("core-differs", fn + (":" + inst["region"] if inst.get("region") else ""),
+                    f"magpylib.core.{fn} differs from get{want}(object){reg} at a point '{inst.get('where')}': "
+                    f"max abs diff {d:.3e} at field scale {sc:.3e}")
     return None
 
 
